@@ -20,6 +20,11 @@ CLAIMED = {
         technique='deterministic simulation: seeded enter/exit/raise programs over all scoped-setting context managers on 1-4 real threads under a seeded scheduler; per-thread reference stack checked before and after every event, restoration checked at the end',
         text='Seeded exploration of well-nested scope programs (19 managers, all argument values, exception exits through 1..6 levels, explicit propagation) on 1-4 scheduled threads. Every getter and a behavioural probe per setting is compared with the thread\'s own reference stack around every event; after the last exit everything must equal the initial observation. Sampling, not enumeration.',
         note='Trusted: the reference nesting rules (validated against the unchanged tree on single-thread programs), the scheduler, real threading.local on real threads. Process-wide managers are driven from one thread only. Exceptions are raised between library calls, not asynchronously inside them.'),
+    'C05': dict(
+        engine='storage', design='§4.2',
+        technique='deterministic simulation: seeded save/overwrite/append/load/rm histories on the real StdFileSystem over a simulated disk (EIO, ENOSPC with short writes, process crash with un-flushed buffers), the real in-memory file system and record sequences, checked operation by operation against a map model',
+        text='Seeded exploration of persistence histories over 2-8 paths on both file systems and on record sequences, half of the runs with injected I/O errors, disk-full budgets and process crashes. Read-your-writes, flushed-prefix durability after a crash, error surfacing and recovery after a fault are checked against a map model; every loaded value must be pg.eq, same type, same hash and a well-formed tree. The value-space half of C05 (injectivity of the JSON encoding) is covered only on the payloads the workload uses.',
+        note='Trusted: the simulated disk (kernel state + per-handle user buffer; process crash, not power loss), fresh registries per run. NaN payloads excluded. After an injected OSError the path is unknown until the next successful save.'),
 }
 
 NOT_APPLICABLE = {}
